@@ -351,6 +351,8 @@ func init() {
 }
 
 func runC03(t *testing.T, c *choice.Stream, r *Result, opt RunOpt) {
+	enumAsInt = c.Bool("target.enum-as-int", 1, 3)
+	defer func() { enumAsInt = false }()
 	Bubble(t, c, r, opt, func(e *Env) func() {
 		cf := DrawConf(c)
 		cf.HandshakeTimeout = []time.Duration{0, 0, 300 * time.Millisecond, 2 * time.Second}[c.Draw("hs.timeout", 4)]
